@@ -936,6 +936,96 @@ pub fn entropy_is_finite_u8_p8() {
     assert!(h >= -0.001 && h <= 8.001, "C18: entropy_base2 outside [0, PRECISION]");
 }
 
+fn near(a: f64, b: f64) -> bool { a.is_finite() && a - b < 1e-6 && b - a < 1e-6 }
+
+/// C18 (diagnostics; bounded: one concrete 3-symbol model with unequal bins, u8, P = 8 =
+/// Probability::BITS, five concrete reference distributions incl. exact zeros and a subnormal
+/// entry): entropy, cross entropy and KL divergence in both directions equal their textbook
+/// definitions on the exact fixed-point probabilities 85/256, 85/256, 86/256 up to 1e-6.
+#[cfg_attr(kani, kani::proof)]
+#[cfg_attr(kani, kani::unwind(6))]
+pub fn diagnostics_concrete_u8_p8() {
+    let m = UniformModel::<u8, 8>::new(3);
+    match group(4) {
+        0 => {
+            assert!(near(m.entropy_base2::<f64>(), 1.5849405154383214), "C18: entropy_base2 differs from -sum self[i] log2 self[i]");
+        }
+        1 => {
+            let p = [0.5f64, 0.25, 0.25];
+            assert!(near(m.cross_entropy_base2::<f64>(p), 1.5863906092211992), "C18: cross_entropy_base2 differs from -sum p[i] log2 self[i]");
+            assert!(near(m.kl_divergence_base2::<f64>(p), 0.08639060922119922), "C18: kl_divergence_base2 differs from sum p[i] log2(p[i] / self[i])");
+        }
+        2 => {
+            let p = [0.5f64, 0.25, 0.25];
+            assert!(near(m.reverse_cross_entropy_base2::<f64>(p), 1.66796875), "C18: reverse_cross_entropy_base2 differs from -sum self[i] log2 p[i]");
+            assert!(near(m.reverse_kl_divergence_base2::<f64>(p), 0.0830282345616786), "C18: reverse_kl_divergence_base2 differs from sum self[i] log2(self[i] / p[i])");
+        }
+        _ => {
+            // exact zeros contribute nothing; a subnormal entry contributes (almost) nothing
+            let p = [0.0f64, 0.0, 1.0];
+            assert!(near(m.kl_divergence_base2::<f64>(p), 1.573735245297902), "C18: kl_divergence_base2 wrong where p has exact zeros");
+            assert!(near(m.cross_entropy_base2::<f64>(p), 1.573735245297902), "C18: cross_entropy_base2 wrong where p has exact zeros");
+            let p = [1.0f64, 1e-310, 0.0];
+            assert!(near(m.kl_divergence_base2::<f64>(p), 1.5906090638622983), "C18: kl_divergence_base2 wrong where p has a subnormal entry");
+        }
+    }
+}
+
+/// C18 (diagnostics; bounded: one concrete table 1/2, 1/4, 1/4 at u16, P = 12 < Probability::BITS,
+/// one concrete reference distribution): the same five diagnostics through the eager contiguous
+/// categorical model (symbol_table of a Vec-backed model), in f64 and entropy also in f32.
+#[cfg_attr(kani, kani::proof)]
+#[cfg_attr(kani, kani::unwind(6))]
+pub fn diagnostics_concrete_categorical_u16_p12() {
+    let m = match ContiguousCategoricalEntropyModel::<u16, _, 12>::from_nonzero_fixed_point_probabilities([2048u16, 1024, 1024], false) {
+        Ok(m) => m,
+        Err(_) => { assert!(false, "C19: valid fixed-point table refused"); return; }
+    };
+    let p = [0.25f64, 0.5, 0.25];
+    match group(3) {
+        0 => {
+            assert!(near(m.entropy_base2::<f64>(), 1.5), "C18: entropy_base2 differs from -sum self[i] log2 self[i]");
+            let h: f32 = m.entropy_base2::<f32>();
+            assert!(h - 1.5 < 1e-4 && 1.5 - h < 1e-4, "C18: entropy_base2 (f32) differs from -sum self[i] log2 self[i]");
+        }
+        1 => {
+            assert!(near(m.cross_entropy_base2::<f64>(p), 1.75), "C18: cross_entropy_base2 differs from -sum p[i] log2 self[i]");
+            assert!(near(m.kl_divergence_base2::<f64>(p), 0.25), "C18: kl_divergence_base2 differs from sum p[i] log2(p[i] / self[i])");
+        }
+        _ => {
+            assert!(near(m.reverse_cross_entropy_base2::<f64>(p), 1.75), "C18: reverse_cross_entropy_base2 differs from -sum self[i] log2 p[i]");
+            assert!(near(m.reverse_kl_divergence_base2::<f64>(p), 0.25), "C18: reverse_kl_divergence_base2 differs from sum self[i] log2(self[i] / p[i])");
+        }
+    }
+}
+
+/// C05 (bounded: one concrete weight table [1, 3, 2, 0] with a trailing zero entry, P = 4, the
+/// caller's `normalization` drawn from {None, 6, 8, 12}, i.e. absent, equal to the sum, and larger
+/// than the sum): the same-named constructor `from_floating_point_probabilities_fast` of the eager
+/// contiguous model, the lazy contiguous model and the lookup decoder, given the SAME arguments,
+/// build the same fixed-point model: every symbol (any usize) and every quantile.
+#[cfg_attr(kani, kani::proof)]
+#[cfg_attr(kani, kani::unwind(20))]
+pub fn same_named_float_constructors_normalization_p4() {
+    const P: usize = 4;
+    let p: [f32; 4] = [1.0, 3.0, 2.0, 0.0];
+    let norm: Option<f32> = match group(4) { 0 => None, 1 => Some(6.0), 2 => Some(8.0), _ => Some(12.0) };
+    let e = match ContiguousCategoricalEntropyModel::<u8, Vec<u8>, P>::from_floating_point_probabilities_fast(&p, norm) {
+        Ok(e) => e, Err(()) => { assert!(false, "C19: eager float constructor refuses a valid table (normalization >= sum)"); return; } };
+    let l = match LazyContiguousCategoricalEntropyModel::<u8, f32, &[f32], P>::from_floating_point_probabilities_fast(&p[..], norm) {
+        Ok(l) => l, Err(()) => { assert!(false, "C05/C19: lazy float constructor refuses a table the eager one accepts"); return; } };
+    let t = match ContiguousLookupDecoderModel::<u8, Vec<u8>, Box<[u8]>, P>::from_floating_point_probabilities_fast(&p, norm) {
+        Ok(t) => t, Err(()) => { assert!(false, "C05/C19: lookup float constructor refuses a table the eager one accepts"); return; } };
+    let s: usize = any();
+    let q: u8 = any(); assume(q < 16);
+    let r = e.quantile_function(q);
+    match group(3) {
+        0 => assert!(l.left_cumulative_and_probability(s) == e.left_cumulative_and_probability(s), "C05: lazy model differs from eager model built from the same arguments (encoder view)"),
+        1 => assert!(l.quantile_function(q) == r, "C05: lazy model differs from eager model built from the same arguments (decoder view)"),
+        _ => assert!(t.quantile_function(q) == r, "C05: lookup decoder differs from the searched decoder built from the same arguments"),
+    }
+}
+
 macro_rules! generic_concrete_harness {
     ($name:ident, $P:expr) => {
         /// C05 (bounded: one concrete 3-symbol table, every quantile): to_generic_decoder_model and
